@@ -143,3 +143,90 @@ Definition s3_run (ops : list (Z * Z)) (sched : list Z) : list Z * list (Z * Z) 
 (* C11 on the outcome: a completed add is listed, a completed remove is not (the operations named distinct backends) *)
 Definition s3_ok (ops : list (Z * Z)) (obs : list Z) : bool :=
   forallb (fun o => if Z.eqb (fst o) 1 then memZ (snd o) obs else if Z.eqb (fst o) 2 then negb (memZ (snd o) obs) else true) ops.
+
+(* ---------------------------------------------------------------------------------------------- *)
+(* Scenario 4 (C06 / C02 / C05 under concurrency): a strategy picks (LoadBalancer.NextBackend) while health flags flip.
+   Every strategy reads each flag under that backend's own lock (markedHealthy): least_connections, weighted_round_robin,
+   ip_hash and ip_hash_consistent read every backend once, in pool order, and then choose among those they saw healthy;
+   round_robin reads along the rotation and takes the first healthy one.  shared: per backend (flag, window-is-fresh).
+   The picker's local state: the flags it has read so far (in read order) and its result (-1 running, 0 nil, id >= 1). *)
+From Helios Require Import Base.Wrap Base.Bytes Model.Hash Model.Strategy.
+
+Definition L_NB_R : Z := 14.   (* NextBackend:RLock (the balancer's lock) *)
+Definition L_MH : Z := 15.     (* markedHealthy:RLock *)
+
+Definition flags := list (bool * bool).
+Definition fl_get (s : flags) (j : Z) : bool * bool := nth (Z.to_nat j) s (false, false).
+Definition fl_set (s : flags) (j : Z) (v : bool * bool) : flags := nth_upd (Z.to_nat j) (fun _ => v) s.
+
+(* the pool a fresh strategy object holds: ids and names 1..n, weight 1, flags as given *)
+Fixpoint pool_of (i : Z) (fs : list bool) : list backend :=
+  match fs with [] => [] | f :: t => mkB i i 1 f 0 0 0 :: pool_of (i + 1) t end.
+
+Definition pick_on_snapshot (kind : Z) (snap : list bool) (client : bytes) : Z :=
+  let st := {| skd := skind_of kind; spool := pool_of 1 snap; sctr := 0 |} in
+  match fst (s_pick st {| h_xff := []; h_xri := []; h_remote := client |}) with Some b => bid b | None => 0 end.
+
+Definition pk_local := (list bool * Z)%type.
+
+Definition picker (kind n : Z) (client : bytes) : thr flags pk_local :=
+  mkThr (fun s l pc =>
+           if Z.eqb pc 0 then
+             (* the balancer's read lock; an empty pool is answered without looking at any flag *)
+             if Z.eqb n 0 then (s, (fst l, 0), None) else (s, l, Some 1)
+           else if Z.eqb kind 0 then
+             (* round_robin: the counter starts at 0, the i-th probe looks at slot i mod n *)
+             let f := fst (fl_get s (pc mod n)) in
+             if f then (s, (fst l ++ [f], pc mod n + 1), None)
+             else if Z.eqb pc n then (s, (fst l ++ [f], 0), None)
+             else (s, (fst l ++ [f], -1), Some (pc + 1))
+           else
+             let f := fst (fl_get s (pc - 1)) in
+             let snap := fst l ++ [f] in
+             if Z.eqb pc n then (s, (snap, pick_on_snapshot kind snap client), None)
+             else (s, (snap, -1), Some (pc + 1)))
+        (fun pc => if Z.eqb pc 0 then L_NB_R else L_MH).
+
+Definition flip_ejector (j : Z) : thr flags pk_local :=
+  mkThr (fun s l pc => (fl_set s j (false, true), (fst l, 0), None)) (fun _ => L_MARK).
+
+(* the lazy expiry of backend j (IsBackendHealthy), as in scenario 1 *)
+Definition flip_healer (j : Z) : thr flags pk_local :=
+  mkThr (fun s l pc =>
+           let '(f, fr) := fl_get s j in
+           if Z.eqb pc 0 then
+             if negb f && negb fr then (s, (fst l, -1), Some 1) else (s, (fst l, b2z f), None)
+           else
+             if negb f && negb fr then (fl_set s j (true, fr), (fst l, 1), None) else (s, (fst l, 0), None))
+        (fun pc => if Z.eqb pc 0 then L_IBH_R else L_IBH_W).
+
+(* thread kinds: 0 = picker, 10 + j = ejector of backend j, 20 + j = healer of backend j (j from 1) *)
+Definition s4_thread (kind n : Z) (client : bytes) (k : Z) : thr flags pk_local :=
+  if Z.eqb k 0 then picker kind n client
+  else if k <? 20 then flip_ejector (k - 11) else flip_healer (k - 21).
+
+Definition s4_run (kind : Z) (init : list Z) (client : bytes) (kinds : list Z) (sched : list Z) : list Z * list (Z * Z) :=
+  let n := zlen init in
+  let ths := map (s4_thread kind n client) kinds in
+  let ts0 := map (fun _ => mkTS (([] : list bool), -1) (Some 0)) kinds in
+  let s0 := map (fun i => (Z.eqb i 1, false)) init in
+  let '(s, ts, trace) := run_sched ths s0 ts0 sched [] in
+  (map (fun p => b2z (fst p)) s ++ map (fun st => snd (ts_local st)) ts, trace).
+
+(* the claim on the outcome, from the configuration of the scenario alone: a backend nobody ejects during the call and that
+   was healthy at its start is healthy throughout: the pick may not be nil; a backend that is ejected from the start and that
+   nobody re-admits is never the pick *)
+Definition always_healthy (init kinds : list Z) (j : Z) : bool := Z.eqb (nth (Z.to_nat (j - 1)) init 0) 1 && negb (memZ (10 + j) kinds).
+Definition always_ejected (init kinds : list Z) (j : Z) : bool := Z.eqb (nth (Z.to_nat (j - 1)) init 1) 0 && negb (memZ (20 + j) kinds).
+(* a picker the schedule did not let finish reports -1 and claims nothing *)
+Definition res_ok (init kinds : list Z) (r : Z) : bool :=
+  Z.eqb r (-1)
+  || (if Z.eqb r 0 then negb (existsb (always_healthy init kinds) (map Z.of_nat (seq 1 (length init))))
+      else (1 <=? r) && (r <=? zlen init) && negb (always_ejected init kinds r)).
+Fixpoint s4_results_ok (init kinds : list Z) (ks : list Z) (res : list Z) : bool :=
+  match ks, res with
+  | k :: ks', r :: res' => (if Z.eqb k 0 then res_ok init kinds r else true) && s4_results_ok init kinds ks' res'
+  | _, _ => true
+  end.
+Definition s4_ok (init kinds : list Z) (obs : list Z) : bool :=
+  s4_results_ok init kinds kinds (skipn (length init) obs).
